@@ -15,15 +15,22 @@
 (* Fix: "report"   - F reports a failed handshake: stores the exception and sets the      *)
 (*                   event; _start re-raises it (proposed_fixes/C20_*.diff)               *)
 (*      "srvclose" - the server closes the client socket when the context id is unknown   *)
+(* The data connection is a resource of its own (dsock): _start closes it on every failure *)
+(* exit.  A persistent backend sits in recv_msg on it and exits iff the client's end is    *)
+(* closed; a one-shot backend ends with its (short) target.  LeakData = TRUE is the        *)
+(* variant whose failure exit forgets the data socket (must be rejected: a failure at the  *)
+(* LAST step - runtime info cut on the control connection of a REAL server, "rinfo*" -     *)
+(* then leaves the persistent backend behind).                                             *)
 (* LateClose = TRUE: the backend closes its inherited copy of the server's end of the      *)
 (* start-up pipe only after the go-ahead (must be rejected: a server that dies between     *)
 (* "backend started" and "go-ahead sent" then leaves an orphan blocked in recv() that      *)
 (* keeps the client's sockets open - the constructor never returns).                       *)
 EXTENDS Naturals, Sequences, FiniteSets, TLC, ClientStartProps
 
-CONSTANTS Fix, Scenarios, LateClose
+CONSTANTS Fix, Scenarios, LateClose, LeakData
 
-VARIABLES scn,      \* [kind, step, how]
+VARIABLES scn,      \* [kind, step, how, pers ("F" one-shot | "T" persistent | "L" one-shot, never-ending target)]
+          dsock,    \* the client's data socket: "none" "open" "closed"
           ppc,      \* constructor: "connect" "startF" "wait" | "spawn" "waitc" | "returned" "raised"
           fpc,      \* frontend thread: "idle" "hdr" "self" "addr" "conn" "info" "set" "fetch" "dead"
           evt, err, \* _startup_sync; handshake error recorded (only with "report")
@@ -40,7 +47,7 @@ VARIABLES scn,      \* [kind, step, how]
           bkp,      \* the backend still holds ITS OWN copy of the server's end of the start-up pipe
           go,       \* the server has sent the go-ahead
           ch        \* process kind: the child: "none" "starting" "reported" "exited"
-vars == <<scn, ppc, fpc, evt, err, sv, sent, dconn, addr, ctrl, info, gotInfo, bk, bkp, go, ch>>
+vars == <<scn, dsock, ppc, fpc, evt, err, sv, sent, dconn, addr, ctrl, info, gotInfo, bk, bkp, go, ch>>
 
 St  == scn.step        \* "healthy" "refuse_data" "unknown_ctx" "hdr" "self" "addr0" "addrM" "addrL" "conn" "info0" "infoM" "infoL"
                        \* "kill_hdr" "kill_self" "kill_addr" "kill_spawn" "kill_window" | process kind: "healthy" "exit_early"
@@ -48,22 +55,26 @@ Ends == {"fin", "rst"}
 Hows == IF scn.how \in Ends THEN {scn.how} ELSE Ends      \* a killed server's sockets end with FIN or RST (kernel's choice)
 IsKill == St \in {"kill_hdr", "kill_self", "kill_addr", "kill_spawn", "kill_window"}
 SrvDead == IsKill /\ sv = "gone"
+IsRInfo == St \in {"rinfo0", "rinfoM", "rinfoL"}       \* real server; the runtime-info frame is cut on the control connection
 
 Init == /\ scn \in Scenarios
         /\ ppc = IF scn.kind = "remote" THEN "connect" ELSE "spawn"
+        /\ dsock = "none"
         /\ fpc = "idle" /\ evt = FALSE /\ err = FALSE /\ sv = "listen" /\ sent = 0 /\ dconn = "open"
         /\ addr = "none" /\ ctrl = "none" /\ info = "none" /\ gotInfo = FALSE /\ bk = "none" /\ bkp = FALSE /\ go = FALSE /\ ch = "none"
 
 (* ---- the constructor ---- *)
 PStep ==
-  /\ CASE ppc = "connect" -> ppc' = (IF St = "refuse_data" THEN "raised" ELSE "startF") /\ UNCHANGED fpc   \* connect() raises
-       [] ppc = "startF" -> ppc' = "wait" /\ fpc' = "hdr"
+  /\ CASE ppc = "connect" -> /\ ppc' = (IF St = "refuse_data" THEN "raised" ELSE "startF")                  \* connect() raises
+                             /\ dsock' = (IF St = "refuse_data" THEN "closed" ELSE "open") /\ UNCHANGED fpc
+       [] ppc = "startF" -> ppc' = "wait" /\ fpc' = "hdr" /\ UNCHANGED dsock
        [] ppc = "wait" -> /\ evt                         \* _startup_sync.wait(): no timeout
                           /\ ppc' = (IF err THEN "raised" ELSE "returned") /\ UNCHANGED fpc
-       [] ppc = "spawn" -> ppc' = "waitc" /\ UNCHANGED fpc
+                          /\ dsock' = (IF err /\ ~LeakData THEN "closed" ELSE dsock)     \* remote.py: `self._socket.close()` before re-raising
+       [] ppc = "spawn" -> ppc' = "waitc" /\ UNCHANGED <<fpc, dsock>>
        [] ppc = "waitc" -> /\ ch \in {"reported", "exited"}          \* connection.wait([comms, sentinel])
                            /\ ppc' = (IF ch = "reported" THEN "returned" ELSE "raised")   \* sentinel path: `assert not self.is_child` fails
-                           /\ UNCHANGED fpc
+                           /\ UNCHANGED <<fpc, dsock>>
        [] OTHER -> FALSE
   /\ ch' = IF ppc = "spawn" THEN "starting" ELSE ch
   /\ UNCHANGED <<scn, evt, err, sv, sent, dconn, addr, ctrl, info, gotInfo, bk, bkp, go>>
@@ -84,7 +95,7 @@ FStep ==
        [] fpc = "info" -> \/ /\ info = "full" /\ gotInfo' = TRUE /\ fpc' = "set" /\ UNCHANGED <<err, evt, sent, ctrl>>
                           \/ /\ info # "full" /\ ctrl \in Ends /\ Fail /\ UNCHANGED <<sent, ctrl, gotInfo>>
        [] fpc = "set" -> evt' = TRUE /\ fpc' = "fetch" /\ UNCHANGED <<err, sent, ctrl, gotInfo>>
-  /\ UNCHANGED <<scn, ppc, sv, dconn, addr, info, bk, bkp, go, ch>>
+  /\ UNCHANGED <<scn, dsock, ppc, sv, dconn, addr, info, bk, bkp, go, ch>>
 
 (* ---- the server (environment) ---- *)
 Gone(how) == sv' = "gone" /\ dconn' = how
@@ -115,11 +126,14 @@ SStep ==
             \E h \in Hows : ctrl' = h /\ Gone(h) /\ bk' = "gone" /\ UNCHANGED <<addr, info, bkp, go>>     \* bootstrap fails, the backend exits
        [] sv = "accepted" /\ St = "kill_window" /\ bk \in {"main", "waitgo"} ->    \* killed between "backend started" and "go-ahead sent":
             sv' = "gone" /\ UNCHANGED <<dconn, addr, ctrl, info>> /\ NB            \* the client's sockets stay open - the backend holds copies
-       [] sv = "accepted" /\ bk = "waitgo" /\ St \notin {"kill_spawn", "kill_window", "info0", "infoM", "infoL"} ->
+       [] sv = "accepted" /\ bk = "waitgo" /\ IsRInfo ->     \* the server does everything right; the frame is cut on its way to the client
+            \E h \in Hows : /\ info' = (IF St = "rinfo0" THEN "none" ELSE "part") /\ ctrl' = h
+                             /\ go' = TRUE /\ sv' = "sentInfo" /\ UNCHANGED <<dconn, addr, bk, bkp>>
+       [] sv = "accepted" /\ bk = "waitgo" /\ ~IsRInfo /\ St \notin {"kill_spawn", "kill_window", "info0", "infoM", "infoL"} ->
             \* runtime info received on the start-up pipe: forward it on the control socket, send the go-ahead
             info' = "full" /\ go' = TRUE /\ sv' = "sentInfo" /\ UNCHANGED <<dconn, addr, ctrl, bk, bkp>>
        [] OTHER -> FALSE
-  /\ UNCHANGED <<scn, ppc, fpc, evt, err, sent, gotInfo, ch>>
+  /\ UNCHANGED <<scn, dsock, ppc, fpc, evt, err, sent, gotInfo, ch>>
 
 (* ---- the backend process (remote.py: _run_backend up to the go-ahead) ---- *)
 \* EOF / EPIPE on the start-up pipe needs EVERY copy of the server's end to be closed: the server's (it is dead) and the
@@ -132,25 +146,28 @@ BStep ==
        [] bk = "main" -> (IF PipeDead THEN bk' = "gone" ELSE bk' = "waitgo") /\ UNCHANGED <<bkp, go>>      \* send runtime info (BrokenPipeError -> exits)
        [] bk = "waitgo" /\ go -> bk' = "run" /\ bkp' = FALSE /\ UNCHANGED go
        [] bk = "waitgo" /\ ~go /\ PipeDead -> bk' = "gone" /\ UNCHANGED <<bkp, go>>                        \* EOFError -> result (False, e) -> exits
+       [] bk = "run" /\ IsRInfo /\ (scn.pers = "F" \/ (scn.pers = "T" /\ dsock = "closed")) -> bk' = "gone" /\ UNCHANGED <<bkp, go>>
+            \* one-shot ("F"): the (short) target ends; persistent ("T"): recv_msg on the data connection sees the client's
+            \* close; one-shot with a target that does not end by itself ("L"): stays (known finding, see ClientStartMC)
        [] OTHER -> FALSE
-  /\ UNCHANGED <<scn, ppc, fpc, evt, err, sv, sent, dconn, addr, ctrl, info, gotInfo, ch>>
+  /\ UNCHANGED <<scn, dsock, ppc, fpc, evt, err, sv, sent, dconn, addr, ctrl, info, gotInfo, ch>>
 \* the last holder of the data and control sockets is gone: the client sees the end of both connections
 SockEOF ==
   /\ St = "kill_window" /\ SrvDead /\ bk = "gone" /\ ctrl = "open"
   /\ \E h \in Hows : ctrl' = h /\ dconn' = h
-  /\ UNCHANGED <<scn, ppc, fpc, evt, err, sv, sent, addr, info, gotInfo, bk, bkp, go, ch>>
+  /\ UNCHANGED <<scn, dsock, ppc, fpc, evt, err, sv, sent, addr, info, gotInfo, bk, bkp, go, ch>>
 
 (* ---- the child process (process kind) ---- *)
 CStep == /\ scn.kind = "process" /\ ch = "starting"
          /\ ch' = IF St = "exit_early" THEN "exited" ELSE "reported"
-         /\ UNCHANGED <<scn, ppc, fpc, evt, err, sv, sent, dconn, addr, ctrl, info, gotInfo, bk, bkp, go>>
+         /\ UNCHANGED <<scn, dsock, ppc, fpc, evt, err, sv, sent, dconn, addr, ctrl, info, gotInfo, bk, bkp, go>>
 
 Next == PStep \/ FStep \/ SStep \/ BStep \/ SockEOF \/ CStep
 Spec == Init /\ [][Next]_vars /\ WF_vars(PStep) /\ WF_vars(FStep) /\ WF_vars(SStep) /\ WF_vars(BStep) /\ WF_vars(SockEOF) /\ WF_vars(CStep)
 
 Done == ppc \in {"returned", "raised"}
-Orphaned == SrvDead /\ bk \in {"boot", "main", "waitgo", "run"}
-Settled == ~(SrvDead /\ ENABLED BStep)
+Orphaned == (SrvDead \/ (IsRInfo /\ ppc = "raised")) /\ bk \in {"boot", "main", "waitgo", "run"}
+Settled == ~((SrvDead \/ IsRInfo) /\ ENABLED BStep)
 Rec == [scn |-> scn,
         obs |-> [outcome |-> IF Done THEN ppc ELSE "hung",
                  id_ok |-> IF ppc # "returned" THEN "na" ELSE IF (scn.kind = "remote" /\ gotInfo) \/ (scn.kind = "process" /\ ch = "reported") THEN "T" ELSE "F",
@@ -159,6 +176,7 @@ Rec == [scn |-> scn,
 Live_Returns   == <>Done
 Inv_Usable     == Done => C20_Usable(Rec)
 Inv_NoLeftover == (Done /\ Settled) => C20_NoLeftover(Rec)
+Inv_DataClosed == (scn.kind = "remote" /\ ppc = "raised") => dsock = "closed"        \* every failure exit closes the data socket
 TypeOK == /\ sent \in 0..2 /\ dconn \in {"open", "fin", "rst"} /\ addr \in {"none", "part", "full"} /\ info \in {"none", "part", "full"}
           /\ (evt /\ ~err) => gotInfo
 
@@ -167,9 +185,10 @@ W_Returned == ~(ppc = "returned")
 W_Raised   == ~(ppc = "raised" /\ scn.kind = "remote" /\ St # "refuse_data")
 W_FDead    == ~(fpc = "dead")
 W_Orphan   == ~Orphaned
+W_RInfoBackend == ~(IsRInfo /\ scn.pers = "T" /\ ppc = "raised" /\ bk = "run")
 W_WindowEOF == ~(St = "kill_window" /\ ppc = "raised")
 
 \* ---- every scenario with every outcome (terminal states), for replay and conformance ----
 Quiet == ~ENABLED Next
-PathDump == Quiet => PrintT(<<"PATH", scn.kind, scn.step, scn.how, Rec.obs.outcome>>)
+PathDump == Quiet => PrintT(<<"PATH", scn.kind, scn.step \o (IF scn.pers = "T" THEN "+pers" ELSE ""), scn.how, Rec.obs.outcome>>)
 =============================================================================
